@@ -37,8 +37,10 @@ def rule(o):
             if getattr(o, '_closefd', False):
                 closes.append(f)
         closes += sorted(o._open_files, key=id)
-        if cls == 'NCCHReader' and getattr(o, '_exefs_fp', None) is not None:
-            closes.append(o._exefs_fp)
+        if cls == 'NCCHReader':
+            closes += [x for x in (getattr(o, 'exefs', None), getattr(o, 'romfs', None)) if x is not None]      # the nested readers
+            if getattr(o, '_exefs_fp', None) is not None:
+                closes.append(o._exefs_fp)
         if cls in ('CIAReader', 'CCIReader', 'CDNReader', 'SDTitleReader'):
             closes += list(o.contents.values())
         if cls == 'NAND':
